@@ -85,6 +85,7 @@ LnQ(num, den) ==
     CASE num = 2  /\ den = 1  -> 693147
       [] num = 4  /\ den = 1  -> 1386294
       [] num = 10 /\ den = 1  -> 2302585
+      [] num = 20 /\ den = 1  -> 2995732        \* FitLawsSmall.tla
       [] num = 1  /\ den = 2  -> -693147
       [] num = 1  /\ den = 4  -> -1386294
       [] num = 1  /\ den = 10 -> -2302585
